@@ -1,6 +1,7 @@
 import PhQVerif.Props.C05
 open PhQVerif Generated
 #print axioms PhQVerif.Props.C05.inverse_pairs
+#print axioms PhQVerif.Props.C05.operator_spellings_are_the_constructors
 #eval s!"COUNT C05.inverse_pairs {InversePairs.rows.length}"
 #eval s!"SAMPLE {InversePairs.p0.id}"
 #print axioms PhQVerif.Props.C05.round_trip_few_ulps
